@@ -551,11 +551,21 @@ class Driver:
             out["vals"] = self.alpha()[ev["b"]]            # what the parameter really holds (x10^4)
         elif a == "fork":                     # two objects: go on with a deep copy, keep the original aside
             import copy as _copy
-            self.orig_sn, self.ocombs = self.sn, self.combs
-            self.sn = _copy.deepcopy(self.sn)
-            self.combs = self._find_combs(self.sn)
-            if any(c is o for c, o in zip(self.combs, self.ocombs)):
-                raise RuntimeError("deepcopy returned the same combiner objects")
+            try:
+                cp = _copy.deepcopy(self.sn)
+            except Exception as e:           # the library's state cannot be copied (e.g. a non-leaf tensor left in a
+                cp = None                    # buffer): not what C03 / C06 state; go on with the one object we have and
+                out["ok"] = False            # leave the original-perturbing events out (the spec skips them anyway)
+                out["err"] = type(e).__name__
+                self.nofork = True
+            if cp is not None:
+                self.orig_sn, self.ocombs = self.sn, self.combs
+                self.sn = cp
+                self.combs = self._find_combs(self.sn)
+                if any(c is o for c, o in zip(self.combs, self.ocombs)):
+                    raise RuntimeError("deepcopy returned the same combiner objects")
+        elif a in ("oalpha", "ohard", "omode", "ofwd") and getattr(self, "nofork", False):
+            out["skipped"] = True
         elif a == "oalpha":                   # ... and perturb the ORIGINAL
             out["how"] = self._write_alpha(self.orig_sn, self.ocombs, ev["b"], ev["vals"], ev.get("how", "copy"))
         elif a == "ohard":
@@ -618,7 +628,7 @@ class Driver:
         mode = sn.training
         before = fixed_state(sn.seed, self.fixed_names)
         o: Dict[str, Any] = {"ok": False, "err": "", "kept": [], "comb": -1, "fixed_kept": False, "extra": -1,
-                             "out_equal_hard": False, "fixed_untouched": False, "runs": False,
+                             "out_equal_hard": False, "fixed_untouched": False, "runs": False, "exactmax": [],
                              "exp": {"par": -1, "ops": -1, "fpar": -1, "fops": -1}}
         try:
             exp = sn.export()
@@ -629,6 +639,15 @@ class Driver:
             return o
         sn.train(mode)                                           # harness restores the mode (F16 belongs to C18)
         o["ok"] = True
+        # bit-exact arg-max set of every block (0-based, as SNLife!ArgMaxSet): an EXACT tie leaves nothing ambiguous (torch.argmax
+        # and the one-hot of the hard selection both take the first maximum); only near-ties (equal at the logged
+        # resolution, different floats) are left open by the spec
+        em = []
+        for c in self.combs:
+            al = c.alpha.detach().flatten()
+            mx = al.max()
+            em.append([i for i in range(al.numel()) if bool(al[i] == mx)])
+        o["exactmax"] = em
         names = leaf_names(exp)
         kept, comb, fixed, other = classify_modules(self.net, names)
         comb = max(comb, sum(1 for m in exp.modules() if isinstance(m, self.CombCls)))
@@ -904,9 +923,11 @@ def random_alpha(rng, n: int) -> List[int]:
     if r < 0.6:
         return ranking_vals(n, rng.randrange(n), rng)
     vals = [rng.randrange(-30000, 30001) for _ in range(n)]
-    if r < 0.7 and n >= 2:                       # a tie for the maximum
-        i, j = rng.sample(range(n), 2)
-        vals[i] = vals[j] = max(vals) + 100
+    if r < 0.7 and n >= 2:                       # an exact tie for the maximum (two, several or all branches)
+        k = rng.choice([2, 2, min(3, n), n])
+        top = max(vals) + 100
+        for i in rng.sample(range(n), k):
+            vals[i] = top
         return vals
     # enforce gaps >= 0.05
     order = sorted(range(n), key=lambda i: vals[i])
